@@ -115,6 +115,51 @@ mod c04p {
                         }
                     }
                 }
+                // the same asked by four threads at once of ONE opened container and of ONE opened file (shared sources)
+                let path = created.path.clone();
+                let conc = util::catch(|| -> Vec<String> {
+                    let mut answers = vec![];
+                    let barrier = std::sync::Arc::new(std::sync::Barrier::new(4));
+                    if let Ok(c) = jubako::reader::Container::new(&path) {
+                        let c = std::sync::Arc::new(c);
+                        let hs: Vec<_> = (0..4)
+                            .map(|_| {
+                                let (c, b) = (c.clone(), barrier.clone());
+                                std::thread::spawn(move || {
+                                    b.wait();
+                                    format!("Container::check {:?}", c.check().map_err(|e| e.to_string()))
+                                })
+                            })
+                            .collect();
+                        answers.extend(hs.into_iter().map(|h| h.join().unwrap_or_else(|_| "Container::check panicked".into())));
+                    }
+                    if let Ok(p) = jubako::tools::open_pack(&path) {
+                        let p = std::sync::Arc::new(p);
+                        let hs: Vec<_> = (0..4)
+                            .map(|_| {
+                                let (p, b) = (p.clone(), barrier.clone());
+                                std::thread::spawn(move || {
+                                    b.wait();
+                                    format!("ContainerPack::check {:?}", p.check().map_err(|e| e.to_string()))
+                                })
+                            })
+                            .collect();
+                        answers.extend(hs.into_iter().map(|h| h.join().unwrap_or_else(|_| "ContainerPack::check panicked".into())));
+                    }
+                    answers
+                });
+                match conc {
+                    Ok(answers) => {
+                        for a in answers {
+                            out.obs.inc("pristine_checks_concurrent");
+                            if !a.ends_with("Ok(true)") {
+                                out.violate(json!({"kind": "pristine-check", "check": "concurrent", "profile": profile()}), format!("C04: four threads checking one freshly created, shared container ({}, {}): {a}", case.pkg.as_str(), case.content.comp.name()), json!({}));
+                                break;
+                            }
+                        }
+                    }
+                    Err(p) => out.violate_panic("C04", "concurrent-check", case.pkg.as_str(), &p),
+                }
                 // the same through the command line tool, for every file of the container
                 for f in &created.files {
                     match cli::check(f) {
